@@ -210,6 +210,162 @@ theorem Ob_MapSlab_Set_heap_of_tails' (cfg : MCfg) (k : MKey) (v : Elem) (P : DG
 
 end
 
+section
+variable (T : Nat) (eb : DEnvB r) (rs : DRestruct r) (Q : (d : Nat) → MTree r d → Prop) (QR : OMap r → Prop)
+
+/-- `if m.root.IsFull() { m.splitRoot() }` against the model's `splitRootIfFull` -/
+theorem mds_topFinish_modelR (hR : MRootTailR T rs QR) (hT1 : maxThr T < 2^32) (addr : Nat) (m2 : OMap r) (s2 : MHSt r)
+    (x2 : Option DX) (o : Option SV) (hpre : mds_RootPreR QR addr s2 m2 x2)
+    (hsz : (MTree.hdr m2.d m2.root).size < 2^32) :
+    match m2.splitRootIfFull T s2.ctx with
+    | .ok (m3, c3) =>
+      ∃ s3 x3, mds_topFinish (envD T eb rs) (md_map m2 s2) o = some (o, none, md_map m3 s3) ∧ s3.ctx = c3 ∧
+        s3.popped = s2.popped ∧ mds_RootPreR QR addr s3 m3 x3 ∧
+        mds_Delta s2.heap s3.heap (md_ids m2.d m2.root) (md_ids m3.d m3.root)
+    | .error e => ∃ M', mds_topFinish (envD T eb rs) (md_map m2 s2) o = some (none, some e, M') := by
+  have hfull : MapSlab_IsFull (envD T eb rs) (md_map m2 s2).root = some (MTree.isFull T m2.d m2.root) :=
+    mds_isFull_tree T eb rs m2.d m2.root _ hsz hT1
+  rw [mds_topFinish_envD, hfull]
+  unfold OMap.splitRootIfFull
+  cases hf : MTree.isFull T m2.d m2.root with
+  | false =>
+    simp only [Bool.false_eq_true, if_false]
+    exact ⟨s2, x2, rfl, rfl, rfl, hpre, mds_Delta.refl _ _⟩
+  | true =>
+    simp only [if_true]
+    have ht := hR.splitRoot addr m2 s2 x2 hpre hf
+    rcases hsp : m2.splitRoot s2.ctx with e | ⟨m3, c3⟩
+    · rw [hsp] at ht
+      obtain ⟨M', hr⟩ := ht
+      exact ⟨M', by rw [hr]; rfl⟩
+    · rw [hsp] at ht
+      obtain ⟨s3, hr, hc, hpp, hpre3, hdl⟩ := ht
+      exact ⟨s3, _, by rw [hr]; rfl, hc, hpp, hpre3, hdl⟩
+
+/-- the promotion of a single child against the model's `promoteIfSingleChild` -/
+theorem mds_topPromote_modelR (hR : MRootTailR T rs QR)
+    (hQRhdrs : ∀ d (xr : MMetaSlab (MTree r d)) ty cnt seed, QR ⟨d + 1, xr, ty, cnt, seed⟩ →
+      xr.childHdrs = xr.children.map (MTree.hdr d))
+    (addr : Nat) (m1 : OMap r) (s1 : MHSt r) (x1 : Option DX) (o : Option SV) (hpre : mds_RootPreR QR addr s1 m1 x1) :
+    ∃ s2 x2, mds_topPromote (envD T eb rs) (md_map m1 s1) o =
+        mds_topFinish (envD T eb rs) (md_map (m1.promoteIfSingleChild s1.ctx).1 s2) o ∧
+      s2.ctx = (m1.promoteIfSingleChild s1.ctx).2 ∧ s2.popped = s1.popped ∧
+      mds_RootPreR QR addr s2 (m1.promoteIfSingleChild s1.ctx).1 x2 ∧
+      mds_Delta s1.heap s2.heap (md_ids m1.d m1.root) (md_ids _ (m1.promoteIfSingleChild s1.ctx).1.root) := by
+  obtain ⟨d, root, ty, cnt, seed⟩ := m1
+  cases d with
+  | zero => exact ⟨s1, x1, rfl, rfl, rfl, hpre, mds_Delta.refl _ _⟩
+  | succ d =>
+    have hc : MMetaSlab.childHdrs root = (MMetaSlab.children root).map (MTree.hdr d) := hQRhdrs d root ty cnt seed hpre.inv
+    rw [mds_topPromote_envD]
+    rcases hch : MMetaSlab.childHdrs root with _ | ⟨h, _ | ⟨h2, tl⟩⟩
+    · have hm : OMap.promoteIfSingleChild ⟨d + 1, root, ty, cnt, seed⟩ s1.ctx = (⟨d + 1, root, ty, cnt, seed⟩, s1.ctx) := by
+        simp only [OMap.promoteIfSingleChild, hch]
+      rw [hm]
+      refine ⟨s1, x1, ?_, rfl, rfl, hpre, mds_Delta.refl _ _⟩
+      simp only [md_map, md_tree, md_meta, hch, List.map_nil]
+    · have ht := hR.promote addr d root ty cnt seed h s1 x1 hch hc hpre
+      obtain ⟨s2, hr, hc2, hpp, hpre2, hdl⟩ := ht
+      refine ⟨s2, _, ?_, hc2, hpp, hpre2, hdl⟩
+      have hroot : (md_map (⟨d + 1, root, ty, cnt, seed⟩ : OMap r) s1).root =
+          .metaSlab (md_meta root (some (md_extra (⟨d + 1, root, ty, cnt, seed⟩ : OMap r)))) := rfl
+      simp only [hroot, md_meta, hch, List.map_cons, List.map_nil, md_hdr]
+      rw [hr]
+      rfl
+    · have hm : OMap.promoteIfSingleChild ⟨d + 1, root, ty, cnt, seed⟩ s1.ctx = (⟨d + 1, root, ty, cnt, seed⟩, s1.ctx) := by
+        simp only [OMap.promoteIfSingleChild, hch]
+      rw [hm]
+      refine ⟨s1, x1, ?_, rfl, rfl, hpre, mds_Delta.refl _ _⟩
+      simp only [md_map, md_tree, md_meta, hch, List.map_cons]
+
+
+/-- THE WHOLE `OMap.set` OVER THE HEAP, given the tails, with the provider invariants split: `Qin` (tight children of the
+    path nodes), `Q` (what the child tails may assume), `QR` (handle-level, what the root tails may assume and
+    re-establish).  `hQRset`: the handle after the tree-level `set` (new root, new count) satisfies `QR`. -/
+theorem Ob_OrderedMap_set_heap_of_tails' (Qin : (d : Nat) → MTree r d → Prop) (cfg : MCfg) (k : MKey) (v : Elem)
+    (P : DG r → Prop) (hE : ElemsSpec cfg k v P eb) (hS : MSplitTail cfg.T rs Q) (hM : MMorTail cfg.T rs Q)
+    (hR : MRootTailR cfg.T rs QR)
+    (hQin : ∀ d (t : MTree r d), Qin d t → Q d t)
+    (hQset : ∀ d (t t' : MTree r d) ks old c c', Qin d t → MTree.set cfg d t k v c = .ok (ks, old, t', c') → Q d t')
+    (hQRhdrs : ∀ d (xr : MMetaSlab (MTree r d)) ty cnt seed, QR ⟨d + 1, xr, ty, cnt, seed⟩ →
+      xr.childHdrs = xr.children.map (MTree.hdr d))
+    (hmono : ∀ (sl : MDataSlab r) c ks old sl' c', MDataSlab.set cfg sl k v c = .ok (ks, old, sl', c') → c.ctr ≤ c'.ctr)
+    (hT1 : maxThr cfg.T < 2^32) (hT2 : minThr cfg.T < 2^32) (hhk : k.dig 0 < 2^64)
+    (m : OMap r) (s : MHSt r) (x0 : Option DX) (depth : Nat) (hd : m.d ≤ depth)
+    (hheld : MHolds s.heap m.d m.root x0) (hnd : (md_ids m.d m.root).Nodup)
+    (haddr : ∀ id ∈ md_ids m.d m.root, id.addr = cfg.addr) (hff : mds_FreshFree cfg.addr s)
+    (hroot : mds_rootFlag m.d m.root = true)
+    (hp : mds_PathG cfg k v P Qin m.d m.root s.ctx)
+    (hQRset : ∀ ks old root' c1, MTree.set cfg m.d m.root k v s.ctx = .ok (ks, old, root', c1) →
+      QR ({ m with root := root', count := if old.isNone then m.count + 1 else m.count } : OMap r))
+    (hszR : ∀ ks old root' c1, MTree.set cfg m.d m.root k v s.ctx = .ok (ks, old, root', c1) →
+      (MTree.hdr _ (OMap.promoteIfSingleChild
+        ({ m with root := root', count := if old.isNone then m.count + 1 else m.count } : OMap r) c1).1.root).size < 2^32) :
+    match OMap.set cfg m k v s.ctx with
+    | .ok (old, m', c') =>
+      ∃ s' x', OrderedMap_set (envD cfg.T eb rs) depth (md_map m s) (.key k) (.val v) =
+          some (old.map .val, none, md_map m' s') ∧
+        s'.ctx = c' ∧ s'.popped = s.popped ∧ mds_RootPreR QR cfg.addr s' m' x' ∧
+        mds_Delta s.heap s'.heap (md_ids m.d m.root) (md_ids m'.d m'.root)
+    | .error e => ∃ M', OrderedMap_set (envD cfg.T eb rs) depth (md_map m s) (.key k) (.val v) = some (none, some e, M') := by
+  have hT := Ob_MapSlab_Set_heap_of_tails' eb rs cfg k v P Q Qin hE hS hM hQin hQset hmono hT1 hT2 hhk m.d depth m.root
+    (some (md_extra m)) x0 s hd hheld (by rw [hroot]; rfl) hnd haddr hff hp
+  rw [mds_OMap_set_eq]
+  rcases hq : MTree.set cfg m.d m.root k v s.ctx with e | ⟨ks, old, root', c1⟩
+  · rw [hq] at hT
+    obtain ⟨root'', s'', hg⟩ := hT
+    exact ⟨_, Ob_OrderedMap_set_step_err cfg.T eb rs (md_map m s) k (.val v) depth none none e root'' s'' hg⟩
+  · rw [hq] at hT
+    obtain ⟨s1, h1, h2, h3, hpost⟩ := hT
+    subst h2
+    simp only []
+    have hszR' := hszR ks old root' s1.ctx hq
+    have hQR1 := hQRset ks old root' s1.ctx hq
+    generalize hm1 : ({ m with root := root', count := if old.isNone then m.count + 1 else m.count } : OMap r) = m1
+      at hszR' hQR1
+    have hcount : mds_topCount ({ Storage := s1, root := md_tree m.d root' (some (md_extra m)), digesterBuilder := () } :
+        DMap r) (old.map .val) = some (md_map m1 s1) := by
+      subst hm1
+      unfold mds_topCount
+      cases old with
+      | none =>
+        simp only [Option.map_none, Option.isNone_none, if_true, mds_tree_extra, mds_tree_withExtra]
+        show some _ = some _
+        congr 1
+        show _ = md_map _ s1
+        have e : u64 m.count + 1 = u64 (m.count + 1) := (UInt64.ofNat_add m.count 1).symm
+        unfold md_map md_extra
+        simp only [if_true, e]
+      | some ov =>
+        simp only [Option.map_some, Option.isNone_some, Bool.false_eq_true, if_false]
+        rfl
+    have hpre1 : mds_RootPreR QR cfg.addr s1 m1 (some (md_extra m)) := by
+      subst hm1
+      exact ⟨hpost.holds, hpost.nodup, hpost.addrOk, hpost.ff, hQR1⟩
+    have hids1 : md_ids m1.d m1.root = md_ids m.d root' := by subst hm1; rfl
+    obtain ⟨s2, x2, hg2, hc2, hp2, hpre2, hdl2⟩ :=
+      mds_topPromote_modelR cfg.T eb rs QR hR hQRhdrs cfg.addr m1 s1 _ (old.map .val) hpre1
+    have hfin := mds_topFinish_modelR cfg.T eb rs QR hR hT1 cfg.addr (m1.promoteIfSingleChild s1.ctx).1 s2 x2
+      (old.map .val) hpre2 hszR'
+    rw [hc2] at hfin
+    have hgen : OrderedMap_set (envD cfg.T eb rs) depth (md_map m s) (.key k) (.val v) =
+        mds_topFinish (envD cfg.T eb rs) (md_map (m1.promoteIfSingleChild s1.ctx).1 s2) (old.map .val) := by
+      rw [Ob_OrderedMap_set_step_map cfg.T eb rs m s k v depth (.key ks) (old.map .val) _ s1 h1]
+      unfold mds_topSpec
+      rw [hcount]
+      exact hg2
+    rcases hsp : OMap.splitRootIfFull cfg.T (m1.promoteIfSingleChild s1.ctx).1 (m1.promoteIfSingleChild s1.ctx).2
+      with e | ⟨m3, c3⟩
+    · rw [hsp] at hfin
+      obtain ⟨M', hr⟩ := hfin
+      exact ⟨M', by rw [hgen, hr]⟩
+    · rw [hsp] at hfin
+      obtain ⟨s3, x3, hr, hc3, hp3, hpre3, hdl3⟩ := hfin
+      refine ⟨s3, x3, by rw [hgen, hr], hc3, by rw [hp3, hp2, h3], hpre3, ?_⟩
+      exact (hpost.delta.trans (hids1 ▸ hdl2)).trans hdl3
+
+end
+
 end
 
 end Atree.TransEq
